@@ -84,6 +84,47 @@ NEEDS = {
  "C19d": "PoissonIntervalEncoder online with inputs exactly 0 (last yielded slice)",
  "C20c": "tensor cost containing inf and two trains sharing a spike time",
  "C20d": "LogNormal with scale below about 1e-2 (float32 cancellation)",
+ # ---- third round (variants e, f; variant g is a behaviour-preserving refactoring by the same sub-agent)
+ "C01e": "out-of-place write / push / latest setter with an observation whose dtype differs from the record's",
+ "C01f": "pop / decr when the pointer is 0 (after exactly N pushes or reset), decr(pos) with pos > pointer, records of size 1",
+ "C02e": "rt.dt = x after construction where the record size does not change (select / insert keep the old step time)",
+ "C02f": "scalar on-grid insert, inplace=False, observation dtype wider than the record's",
+ "C03e": "QIF / Izhikevich with resistance != 1",
+ "C03f": "ALIF / GLIF2 with a net-negative threshold adaptation and a voltage between the true threshold and the equilibrium",
+ "C04e": "interp_tol above 1e-6, delay > 0, selector off the grid but within tolerance of a step",
+ "C04f": "synapse.delay assigned after construction, then a delayed read between the old and the new maximum",
+ "C05e": "dense / lateral connection on a DeltaPlusCurrent synapse called with an extra injected-current input",
+ "C05f": "an advertised batched shape read once, then conn.batchsz changed",
+ "C06e": "maximum delay raised through the setter after construction, then a learned delay above the old maximum",
+ "C06f": "DeltaPlusCurrent built through partialconstructor with interp_mode='nearest' and an off-grid learned delay",
+ "C07e": "scaled cumulative trace with scale != 0 and graded observations whose non-matching entries are non-zero",
+ "C07f": "EventReducer with duration > 0, off-grid view time, an event at the newer end of the interval",
+ "C08e": "TripletSTDP with delayed=True, delayedby >= dt and a synapse at the maximum delay",
+ "C08f": "trace_mode='nearest' and the step time changed through the dt setters after register_cell",
+ "C09e": "an updater managing more than one parameter (trainable delays or a bias)",
+ "C09f": "two cells of one layer sharing the postsynaptic neuron in one TripletSTDP, the second overriding only lr_pre_pair",
+ "C10e": "a one-sided accumulation (only potentiating or only depressing parts) at update time",
+ "C10f": "full multiplicative bounding with max == 0.0",
+ "C11e": "Serial with distinct connection / neuron names, adaptation frozen through neuron_kwargs, batch size > 1",
+ "C11f": "Biclique with a string combine mode, at least two connections, batch size >= 2",
+ "C12e": "RecurrentSerial whose target's last feedback spikes differ from the source's at the checkpoint",
+ "C12f": "MaxRateClassifier target that is a copy.deepcopy of another instance",
+ "C13e": "undelayed record (duration 0), inclusive=True, then an assignment to dt",
+ "C13f": "strict constraints with both a non-negative and a negative constrained dim and a tensor of intermediate rank",
+ "C14e": "reducer duration assigned a value equal to its current step time",
+ "C14f": "DoubleExponentialCurrent whose dt / delay is assigned after construction (delayed read-outs)",
+ "C15e": "register_cell / add_monitor while trainer.eval() is in force and the layer keeps stepping in training mode",
+ "C15f": "MSTDPET with a trace / spike monitor replaced after registration (prepend ignored for post-hook monitors)",
+ "C16e": "Normalization hook with train_update != eval_update called in eval mode",
+ "C16f": "Clamping an integer-typed attribute with a fractional bound",
+ "C17e": "Biclique with unequal numbers of connections and neuron groups, then clear()",
+ "C17f": "DoubleExponentialCurrent synapse, clear() after at least one input spike",
+ "C18e": "DelayAdjustedMSTDPD with a Python float reward, at least two cells, |signal| != 1",
+ "C18f": "DelayAdjustedKernelSTDPD with a non-additive batch reduction, same-sign rates, batch size > 1",
+ "C19e": "HomogeneousPoissonEncoder online with a refractory period larger than the step time",
+ "C19f": "encoder steps reconfigured through the setter",
+ "C20e": "Normal.cdf / logcdf on a tensor support with loc != 0 whose grid is reused after the call",
+ "C20f": "extrap_linear_forward with a non-identity adjust=",
 }
 INITIAL = {  # which checks fired when the change was first tried, before any strengthening prompted by it
  "C05b": ["C10"], "C06a": [], "C06b": [], "C07a": [], "C07b": [], "C08b": ["C07"], "C09a": [], "C09b": ["C10"], "C11a": [], "C11b": ["C08", "C09"],
@@ -97,6 +138,13 @@ INITIAL = {  # which checks fired when the change was first tried, before any st
  "C11c": ["C14"], "C11d": ["C18"], "C12c": ["C01", "C12"], "C12d": ["C12"], "C13c": ["C14"], "C13d": ["C13"], "C14c": ["C13"], "C14d": ["C07", "C14"],
  "C15c": ["C16"], "C15d": ["C15"], "C16c": ["C15", "C16"], "C16d": ["C16"], "C17c": [], "C17d": ["C17"], "C18c": ["C09", "C18"], "C18d": ["C15"],
  "C19c": [], "C19d": ["C19"], "C20c": ["C20"], "C20d": ["C20"],
+ # third round: swept with the machinery as it stood after round two (decision tables and generic rules in place)
+ "C01e": ["C01"], "C01f": ["C01"], "C02e": ["C13", "C14"], "C02f": ["C01"], "C03e": ["C03"], "C03f": ["C03"], "C04e": ["C04"], "C04f": [],
+ "C05e": ["C05"], "C05f": [], "C06e": ["C14"], "C06f": [], "C07e": ["C07", "C08"], "C07f": ["C07"], "C08e": ["C08"], "C08f": ["C07", "C14"],
+ "C09e": ["C10"], "C09f": ["C08", "C15"], "C10e": ["C10"], "C10f": ["C10"],
+ "C11e": ["C17"], "C11f": ["C11", "C17"], "C12e": ["C12"], "C12f": ["C12"], "C13e": ["C02", "C13", "C14"], "C13f": ["C13"],
+ "C14e": ["C07", "C13", "C14"], "C14f": ["C04", "C06"], "C15e": ["C15"], "C15f": ["C15"], "C16e": ["C16"], "C16f": ["C16"],
+ "C17e": ["C17"], "C17f": ["C04", "C17"], "C18e": ["C18"], "C18f": ["C18"], "C19e": ["C19"], "C19f": ["C14", "C19"], "C20e": [], "C20f": ["C02", "C20"],
 }
 ADDED = {  # what the seeded change led to in the machinery (empty: the target check caught it as it stood)
  "C03b": "C11 fired as well although C11 still holds (the tested flag is rebound before the branch): false alarm, truth tables now follow rebinding of a tested flag (DESIGN 11)",
@@ -140,11 +188,23 @@ ADDED = {  # what the seeded change led to in the machinery (empty: the target c
  "C17c": "G15: a loop variable read after its loop",
  "C18d": "C18.e: pooled-monitor identity clauses (C15.f / C15.h) shared for the delay-adjusted and kernel trainers",
  "C19c": "G16: both arms of a mode switch in a setter store the same fields",
+ "C02e": "C02.i: the record's dt / duration setters (C13.b and their tables) are shared with C02",
+ "C02f": "C02.j: the write primitive's dtype discipline (C01.d and its table) is shared with C02",
+ "C04f": "summaries record stores through computed objects (`getattr(self, name).duration = v`) as ordered effects; C04.f shares the DelayedMixin tables",
+ "C05f": "summaries include how a function is wrapped (decorators: a cached property is not a property) and parameter defaults; C05.e shares the Connection tables",
+ "C06e": "C06.g: the DelayedMixin setters' tables are shared with C06",
+ "C06f": "summaries identify nested definitions (closures) by their text: a keyword dropped inside the closure of a partial constructor changes the summary",
+ "C08f": "C08.g also imports the derived-state ordering clause (C07.b) and the trace reducers' tables",
+ "C09e": "C09.g: the updater's accumulator wiring (C10.a/b and tables) is shared with C09",
+ "C09f": "C09.h: pool-key completeness (C15.f) is shared with C09",
+ "C11e": "C11.g: layer forward / wiring tables (C17) are shared with C11",
+ "C14f": "C14.g: record registration (C04.e) is shared with C14",
+ "C20e": "in-place operators (`x -= y`) are effects in summaries, not rebinding: a function that updates its caller's tensor is not the function that computes a new one",
 }
 os.makedirs(DST, exist_ok=True)
 rows = []
 for pid in [f"C{i:02d}" for i in range(1, 21)]:
-    for v in "abcd":
+    for v in "abcdef":
         src = f"{SRC}/{pid}/{v}"
         if not os.path.exists(f"{src}/patch.diff"):
             continue
@@ -179,6 +239,47 @@ for pid in [f"C{i:02d}" for i in range(1, 21)]:
         }
         json.dump(meta, open(f"{dst}/meta.json", "w"), indent=1)
         rows.append((key, NEEDS.get(key, ""), INITIAL.get(key, fires), fires, summary[0] if summary else "pending", len(failed)))
+# ---- behaviour-preserving refactorings written by the same sub-agents (variant g): every check must stay silent
+FIRST_G = {"C01g": ["C01", "C11"], "C02g": ["C02"], "C03g": [], "C04g": ["C04", "C13", "C14"], "C05g": ["C05", "C06"], "C06g": [], "C07g": [],
+           "C08g": ["C06", "C08", "C09", "C15"], "C09g": [], "C10g": ["C10"], "C11g": ["C17"], "C12g": ["C12"], "C13g": ["C02", "C13", "C14"],
+           "C14g": ["C07"], "C15g": ["C15"], "C16g": ["C15", "C16"], "C17g": ["C17"], "C18g": [], "C19g": ["C19"], "C20g": []}
+grows = []
+for pid in [f"C{i:02d}" for i in range(1, 21)]:
+    src = f"{SRC}/{pid}/g"
+    if not os.path.exists(f"{src}/patch.diff"):
+        continue
+    key = pid + "g"
+    dst = f"{DST}/{key}"
+    os.makedirs(dst, exist_ok=True)
+    shutil.copy(f"{src}/patch.diff", f"{dst}/patch.diff")
+    shutil.copy(f"{src}/demo.py", f"{dst}/demo.py")
+    tests = open(f"{src}/confirm_tests.txt").read().strip().splitlines() if os.path.exists(f"{src}/confirm_tests.txt") else []
+    checks = open(f"{src}/confirm_checks.txt").read().strip().splitlines() if os.path.exists(f"{src}/confirm_checks.txt") else []
+    fires = [l.split()[1] for l in checks if l.startswith("FIRES")]
+    failed = [l for l in tests if l.startswith("FAILED")]
+    flaky = open(f"{src}/confirm_flaky.txt").read().strip().splitlines() if os.path.exists(f"{src}/confirm_flaky.txt") else []
+    summary = [l for l in tests if "passed" in l]
+    meta = {
+        "id": key, "kind": "behaviour-preserving refactoring (the property must still hold: every check must stay silent)", "written_for_property": pid,
+        "author": "independent sub-agent (given only the property text and a scratch worktree)",
+        "what_was_run": {
+            "demo_on_refactored_tree": next((l for l in tests if l.startswith("demo_modified_rc")), "not run"),
+            "demo_on_clean_tree": next((l for l in tests if l.startswith("demo_clean_rc")), "not run"),
+            "existing_suite_on_refactored_tree": summary[0] if summary else "not run",
+            "suite_failures_all_in_preexisting_flaky_randomised_tests": failed,
+            "reruns_of_those_tests_with_the_patch_applied": flaky,
+        },
+        "checks_that_fired_when_first_tried": FIRST_G.get(key, []),
+        "checks_that_fire_now": fires,
+        "unresolved_false_alarm": bool(fires),
+        "agent_notes": open(f"{src}/notes.md").read() if os.path.exists(f"{src}/notes.md") else "",
+    }
+    json.dump(meta, open(f"{dst}/meta.json", "w"), indent=1)
+    grows.append((key, FIRST_G.get(key, []), fires, summary[0] if summary else "pending"))
+with open(f"{DST}/README_refactorings.md", "w") as f:
+    f.write("| refactoring | checks firing when first tried (false alarms) | checks firing now | suite with the refactoring |\n|---|---|---|---|\n")
+    for key, ini, fires, summ in grows:
+        f.write(f"| {key} | {', '.join(ini) or 'none'} | {', '.join(fires) or 'none'} | {summ} |\n")
 with open(f"{DST}/README.md", "w") as f:
     f.write("| change | needs, in order to manifest | checks firing when first tried | checks firing now | suite with the change |\n|---|---|---|---|---|\n")
     for key, needs, ini, fires, summ, nf in rows:
